@@ -56,4 +56,5 @@ def run(rep, fb, tier):
     __import__("vf.rules.pyrules3", fromlist=["x"]).rule_py_duplicate_operand(rep)
     __import__("vf.rules.pyrules", fromlist=["x"]).rule_py_dead_attr(rep)
     __import__("vf.rules.pyrules4", fromlist=["x"]).rule_py_dunder_other(rep)
+    __import__("vf.rules.pyrules5", fromlist=["x"]).rule_py_none_after_loop(rep)
     rep.units = fb.units
